@@ -117,7 +117,7 @@ func solveOne(file string, timeoutS, seed int, single string) solveResult {
 }
 
 // solveAll discharges obligations in parallel.
-func solveAll(obls []*Obligation, workDir string, timeoutS, seed, workers int, single string) {
+func solveAll(obls []*Obligation, workDir string, timeoutS, seed, workers int, single string, known func(*Obligation) bool) {
 	var wg sync.WaitGroup
 	ch := make(chan *Obligation)
 	for w := 0; w < workers; w++ {
@@ -178,14 +178,14 @@ func solveAll(obls []*Obligation, workDir string, timeoutS, seed, workers int, s
 	}
 	close(ch)
 	wg.Wait()
-	secondChance(obls, workDir, timeoutS, seed, single)
+	secondChance(obls, workDir, timeoutS, seed, single, known)
 }
 
 // secondChance re-runs proof obligations that ended without an answer (timeout / unknown) once the
-// machine is quiet: four at a time, four times the budget, two seeds. An obligation that is slow but
+// machine is quiet: four at a time, four times the budget, another seed. An obligation that is slow but
 // true must not become an alarm because the first pass shared sixteen cores with two dozen solver
 // processes or ran on a slower machine; one that stays undecided is still reported as failed.
-func secondChance(obls []*Obligation, workDir string, timeoutS, seed int, single string) {
+func secondChance(obls []*Obligation, workDir string, timeoutS, seed int, single string, known func(*Obligation) bool) {
 	var again []*Obligation
 	for _, o := range obls {
 		if !o.Syntactic && o.Expect == "unsat" && o.Status == "failed" && (o.Answer == "timeout" || o.Answer == "unknown") {
@@ -195,8 +195,17 @@ func secondChance(obls []*Obligation, workDir string, timeoutS, seed int, single
 	if len(again) == 0 || os.Getenv("GOVC_NO_SECOND_PASS") != "" {
 		return
 	}
-	if len(again) > 24 {
-		again = again[:24] // a tree on which dozens of obligations stall is reported from the first pass
+	// The second pass exists to keep a slow-but-true obligation from becoming an alarm. When the run
+	// already has an obligation that failed for a reason (a counterexample or a syntactic check), the
+	// verdict is a violation whatever the undecided ones turn out to be; and a tree on which many
+	// obligations stall is reported from the first pass.
+	for _, o := range obls {
+		if o.Expect == "unsat" && o.Status == "failed" && !known(o) && (o.Syntactic || o.Answer == "sat" || o.Answer == "too-large") {
+			return
+		}
+	}
+	if len(again) > 8 {
+		return
 	}
 	var wg sync.WaitGroup
 	ch := make(chan *Obligation)
@@ -211,7 +220,7 @@ func secondChance(obls []*Obligation, workDir string, timeoutS, seed int, single
 						continue
 					}
 				}
-				for _, sd := range []int{seed, seed + 7} {
+				for _, sd := range []int{seed + 7} {
 					r := solveOne(file, 4*timeoutS, sd, single)
 					o.SecondPass = true
 					if r.answer == "unsat" || r.answer == "sat" {
